@@ -206,4 +206,176 @@ theorem subSameLenSwap_eq (W : Nat) (as bs : List Nat) (c : Nat) (hl : as.length
       simp only [subSameLenSwap, subSameLen]
       rw [ih bs _ (by simpa using hl)]
 
+
+-- ------------------------------------------------------------------ helpers used by the dispatch layer
+
+theorem pow_mul_succ (W n : Nat) : 2 ^ (W * (n + 1)) = 2 ^ W * 2 ^ (W * n) := by
+  rw [Nat.mul_add, Nat.mul_one, Nat.pow_add, Nat.mul_comm]
+
+theorem two_pow_two_mul (W : Nat) : 2 ^ (2 * W) = 2 ^ W * 2 ^ W := by
+  rw [← Nat.pow_add]; congr 1; omega
+
+theorem pow_mul_split (W : Nat) {n m : Nat} (h : n ≤ m) :
+    2 ^ (W * m) = 2 ^ (W * n) * 2 ^ (W * (m - n)) := by
+  rw [← Nat.pow_add, ← Nat.mul_add]; congr 2; omega
+
+theorem length_take_of_le {l : List Nat} {n : Nat} (h : n ≤ l.length) : (l.take n).length = n := by
+  simp [List.length_take, Nat.min_eq_left h]
+
+-- ------------------------------------------------------------------ add_in_place / sub_in_place
+
+theorem addInPlace_spec (W : Nat) (lhs rhs : List Nat)
+    (hl : IsWords W lhs) (hr : IsWords W rhs) (hlen : rhs.length ≤ lhs.length) :
+    let r := addInPlace W lhs rhs
+    val W r.1 + 2 ^ (W * lhs.length) * r.2 = val W lhs + val W rhs ∧
+    r.1.length = lhs.length ∧ IsWords W r.1 ∧ r.2 ≤ 1 := by
+  have htl : (lhs.take rhs.length).length = rhs.length := length_take_of_le hlen
+  have hs := addSameLen_spec W (lhs.take rhs.length) rhs 0 (hl.take _) hr htl (by omega)
+  have hsplit := val_take_add_drop W lhs rhs.length
+  have hdl : (lhs.drop rhs.length).length = lhs.length - rhs.length := List.length_drop ..
+  have hpow := pow_mul_split W hlen
+  have ho := addOne_spec W (lhs.drop rhs.length) (hl.drop _)
+  simp only [addInPlace]
+  generalize addSameLen W (lhs.take rhs.length) rhs 0 = res at hs
+  obtain ⟨lo', c⟩ := res
+  generalize addOne W (lhs.drop rhs.length) = res2 at ho
+  obtain ⟨hi', c'⟩ := res2
+  simp only [htl, hdl] at hs hsplit ho ⊢
+  obtain ⟨s1, s2, s3, s4⟩ := hs
+  obtain ⟨o1, o2, o3, o4⟩ := ho
+  by_cases hc : c = 0
+  · subst hc
+    simp only [if_true]
+    refine ⟨?_, ?_, s3.append (hl.drop _), by omega⟩
+    · rw [val_append, s2]
+      simp only [Nat.mul_zero, Nat.add_zero] at s1 ⊢
+      omega
+    · simp only [List.length_append, s2, hdl]; omega
+  · have hc1 : c = 1 := by omega
+    subst hc1
+    simp only [hc, if_false]
+    refine ⟨?_, ?_, s3.append o3, o4⟩
+    · rw [val_append, s2, hpow]
+      have e : 2 ^ (W * rhs.length) * (val W hi' + 2 ^ (W * (lhs.length - rhs.length)) * c')
+          = 2 ^ (W * rhs.length) * (val W (lhs.drop rhs.length) + 1) := by rw [o1]
+      nlinarith [e, s1, hsplit]
+    · simp only [List.length_append, s2, o2]; omega
+
+theorem subInPlace_spec (W : Nat) (lhs rhs : List Nat)
+    (hl : IsWords W lhs) (hr : IsWords W rhs) (hlen : rhs.length ≤ lhs.length) :
+    let r := subInPlace W lhs rhs
+    val W r.1 + val W rhs = val W lhs + 2 ^ (W * lhs.length) * r.2 ∧
+    r.1.length = lhs.length ∧ IsWords W r.1 ∧ r.2 ≤ 1 := by
+  have htl : (lhs.take rhs.length).length = rhs.length := length_take_of_le hlen
+  have hs := subSameLen_spec W (lhs.take rhs.length) rhs 0 (hl.take _) hr htl (by omega)
+  have hsplit := val_take_add_drop W lhs rhs.length
+  have hdl : (lhs.drop rhs.length).length = lhs.length - rhs.length := List.length_drop ..
+  have hpow := pow_mul_split W hlen
+  have ho := subOne_spec W (lhs.drop rhs.length) (hl.drop _)
+  simp only [subInPlace]
+  generalize subSameLen W (lhs.take rhs.length) rhs 0 = res at hs
+  obtain ⟨lo', c⟩ := res
+  generalize subOne W (lhs.drop rhs.length) = res2 at ho
+  obtain ⟨hi', c'⟩ := res2
+  simp only [htl, hdl] at hs hsplit ho ⊢
+  obtain ⟨s1, s2, s3, s4⟩ := hs
+  obtain ⟨o1, o2, o3, o4⟩ := ho
+  by_cases hc : c = 0
+  · subst hc
+    simp only [if_true]
+    refine ⟨?_, ?_, s3.append (hl.drop _), by omega⟩
+    · rw [val_append, s2]
+      simp only [Nat.mul_zero, Nat.add_zero] at s1 ⊢
+      omega
+    · simp only [List.length_append, s2, hdl]; omega
+  · have hc1 : c = 1 := by omega
+    subst hc1
+    simp only [hc, if_false]
+    refine ⟨?_, ?_, s3.append o3, o4⟩
+    · rw [val_append, s2, hpow]
+      have e : 2 ^ (W * rhs.length) * (val W hi' + 1)
+          = 2 ^ (W * rhs.length) * (val W (lhs.drop rhs.length)
+              + 2 ^ (W * (lhs.length - rhs.length)) * c') := by rw [o1]
+      nlinarith [e, s1, hsplit]
+    · simp only [List.length_append, s2, o2]; omega
+
+/-- no final borrow ⇔ rhs ≤ lhs (because the digits are `< B^n`) -/
+theorem subInPlace_borrow_iff (W : Nat) (lhs rhs : List Nat)
+    (hl : IsWords W lhs) (hr : IsWords W rhs) (hlen : rhs.length ≤ lhs.length) :
+    ((subInPlace W lhs rhs).2 = 0 ↔ val W rhs ≤ val W lhs) := by
+  have ⟨h1, h2, h3, h4⟩ := subInPlace_spec W lhs rhs hl hr hlen
+  have hlt := val_lt W _ h3
+  rw [h2] at hlt
+  generalize (subInPlace W lhs rhs).2 = c at *
+  constructor
+  · intro h; subst h; simp only [Nat.mul_zero, Nat.add_zero] at h1; omega
+  · intro h
+    rcases Nat.eq_zero_or_pos c with h0 | h0
+    · exact h0
+    · have : c = 1 := by omega
+      subst this
+      simp only [Nat.mul_one] at h1
+      omega
+
+-- ------------------------------------------------------------------ add_word_in_place / sub_word_in_place
+
+theorem addWord_spec (W : Nat) (ws : List Nat) (r : Nat) (h : IsWords W ws) (hr : r < 2 ^ W)
+    (hne : ws ≠ []) :
+    let o := addWord W ws r
+    val W o.1 + 2 ^ (W * ws.length) * o.2 = val W ws + r ∧
+    o.1.length = ws.length ∧ IsWords W o.1 ∧ o.2 ≤ 1 := by
+  cases ws with
+  | nil => exact absurd rfl hne
+  | cons w ws =>
+    have hw := h.head
+    have hp : 0 < 2 ^ W := Nat.two_pow_pos W
+    have ho := addOne_spec W ws h.tail
+    simp only [addWord]
+    generalize addOne W ws = res at ho
+    obtain ⟨t, c⟩ := res
+    obtain ⟨o1, o2, o3, o4⟩ := ho
+    simp only at o1 o2 o3 o4
+    by_cases hc : (w + r) / 2 ^ W = 0
+    · simp only [hc, if_true, val_cons, List.length_cons, Nat.mul_zero, Nat.add_zero]
+      have hlt : w + r < 2 ^ W := (Nat.div_eq_zero_iff_lt hp).mp hc
+      exact ⟨by omega, trivial, IsWords.cons hlt h.tail, by omega⟩
+    · simp only [hc, if_false, val_cons, List.length_cons]
+      have hge : 2 ^ W ≤ w + r := by
+        rcases Nat.lt_or_ge (w + r) (2 ^ W) with h' | h'
+        · exact absurd ((Nat.div_eq_zero_iff_lt hp).mpr h') hc
+        · exact h'
+      have hmod : (w + r) % 2 ^ W = w + r - 2 ^ W := by
+        rw [Nat.mod_eq_sub_mod hge]; exact Nat.mod_eq_of_lt (by omega)
+      refine ⟨?_, by simp [o2], IsWords.cons (Nat.mod_lt _ hp) o3, o4⟩
+      rw [hmod, pow_mul_succ]
+      have e : 2 ^ W * (val W t + 2 ^ (W * ws.length) * c) = 2 ^ W * (val W ws + 1) := by rw [o1]
+      have : w + r - 2 ^ W + 2 ^ W = w + r := by omega
+      nlinarith [e, this]
+
+theorem subWord_spec (W : Nat) (ws : List Nat) (r : Nat) (h : IsWords W ws) (hr : r < 2 ^ W)
+    (hne : ws ≠ []) :
+    let o := subWord W ws r
+    val W o.1 + r = val W ws + 2 ^ (W * ws.length) * o.2 ∧
+    o.1.length = ws.length ∧ IsWords W o.1 ∧ o.2 ≤ 1 := by
+  cases ws with
+  | nil => exact absurd rfl hne
+  | cons w ws =>
+    have hw := h.head
+    have hp : 0 < 2 ^ W := Nat.two_pow_pos W
+    have ho := subOne_spec W ws h.tail
+    simp only [subWord]
+    generalize subOne W ws = res at ho
+    obtain ⟨t, c⟩ := res
+    obtain ⟨o1, o2, o3, o4⟩ := ho
+    simp only at o1 o2 o3 o4
+    by_cases hc : r ≤ w
+    · simp only [hc, if_true, val_cons, List.length_cons, Nat.mul_zero, Nat.add_zero]
+      exact ⟨by omega, trivial, IsWords.cons (by omega) h.tail, by omega⟩
+    · simp only [hc, if_false, val_cons, List.length_cons]
+      refine ⟨?_, by simp [o2], IsWords.cons (by omega) o3, o4⟩
+      rw [pow_mul_succ]
+      have e : 2 ^ W * (val W t + 1) = 2 ^ W * (val W ws + 2 ^ (W * ws.length) * c) := by rw [o1]
+      have : w + 2 ^ W - r + r = w + 2 ^ W := by omega
+      nlinarith [e, this]
+
 end Dashu.Model
